@@ -17,7 +17,11 @@ def run(ctx):
         r = subprocess.run([sys.executable, os.path.join(vlib.VERIF, "tools", "asm2tla.py"), ASM, os.path.join(d, "AsmProgram.tla")],
                            capture_output=True, text=True)
         if r.returncode != 0:
-            raise vlib.Infra("asm2tla failed (instruction form not covered by AsmMachine): " + r.stderr.strip())
+            # an instruction form AsmMachine has no semantics for: this white-box leg is skipped (recorded in the evidence),
+            # the other legs of C20 still decide
+            ctx.skipped.append("AsmMachine: " + r.stderr.strip()[:300])
+            ctx.log("AsmMachine leg skipped: " + r.stderr.strip()[:200])
+            return
         cmd = ["java", "-Xss512m", "-XX:+UseParallelGC", "-Xmx6g", "-cp", vlib.TLA_CP, "tlc2.TLC", "-workers", "1",
                "-metadir", os.path.join(d, "meta"), "-config", cfg + ".cfg", "AsmMachine.tla"]
         try:
@@ -35,18 +39,11 @@ def run(ctx):
         ctx.model_states += dist
         ctx.legs.setdefault("M", []).append(dict(module="AsmMachine", cfg=cfg, distinct=dist, generated=gen, source=ASM))
         ctx.log("M AsmMachine/%s: %d instructions executed" % (cfg, dist))
-        if p.returncode == 0:
-            continue
-        m = re.search(r"Invariant (\w+) is violated", out)
-        if not m:
+        m = re.search(r'<<\s*"VERIF-ASM",\s*"([^"]*)",\s*(\d+)\s*>>', out, re.S)
+        if p.returncode != 0 or not m:
             raise vlib.Infra("AsmMachine %s failed (rc=%d)\n%s" % (mode, p.returncode, vlib.tail(out, 30)))
-        # the last state of TLC's behaviour: which instruction, which address
-        last = out.split("State ")[-1]
-        pcm = re.search(r"/\\ pc = (\d+)", last)
-        errm = re.search(r'/\\ err = "([^"]*)"', last)
-        ctx.bad.append(dict(event=dict(op="asm." + mode, invariant=m.group(1), pc=int(pcm.group(1)) if pcm else -1,
-                                       err=errm.group(1) if errm else "", steps=dist, source="pkg/curl/transform_amd64.s",
+        if m.group(1) == "ok":
+            continue
+        ctx.bad.append(dict(event=dict(op="asm." + mode, failed=m.group(1), pc=int(m.group(2)), steps=dist, source="pkg/curl/transform_amd64.s",
                                        **{"in": {"file": "pkg/curl/transform_amd64.s"}}),
-                            reason="the checked-in assembly, executed by the AsmMachine specification, violates %s (%s)"
-                            % (m.group(1), "memory operand outside the four buffers / data used as address" if mode == "addr"
-                               else "a store of the round body is not the Curl-P round function of its index")))
+                            reason="the checked-in assembly, executed by the AsmMachine specification, fails: %s (instruction %s)" % (m.group(1), m.group(2))))
